@@ -1,0 +1,106 @@
+//go:build verif
+
+// Machine-checked contracts for package data (comment-only file; it is never
+// compiled into the library).  Read by /verif/engine (gvc), which turns every
+// clause into a proof obligation on the real functions of this package.
+
+package data
+
+//@ spec func pow256(n int) uint64 {
+//@   switch n {
+//@   case 1: return 1 << 8
+//@   case 2: return 1 << 16
+//@   case 3: return 1 << 24
+//@   case 4: return 1 << 32
+//@   case 5: return 1 << 40
+//@   case 6: return 1 << 48
+//@   case 7: return 1 << 56
+//@   }
+//@   return 0
+//@ }
+
+//@ spec func fitsIn(v uint64, n int) bool { return n >= 8 || v < pow256(n) }
+
+// ---------------------------------------------------------------- Integer
+
+//@ contract ReadInteger(bytes []byte, size int) (i Integer, rem []byte)
+//@   ensures @C03 @C12 size < 1 || size > 8 ==> i == nil && same(rem, bytes)
+//@   ensures @C03 @C12 1 <= size && size <= 8 && len(bytes) < size ==> same(i, bytes) && rem == nil
+//@   ensures @C03 @C12 1 <= size && size <= 8 && len(bytes) >= size ==> same(i, bytes[:size]) && same(rem, bytes[size:])
+//@   modifies nothing
+
+//@ contract NewIntegerFromInt(value int, size int) (integer *Integer, err error)
+//@   ensures @C12 (err == nil) == (value >= 0 && 1 <= size && size <= 8 && fitsIn(uint64(value), size))
+//@   ensures @C12 err == nil ==> integer != nil && len(*integer) == size && val(*integer) == uint64(value) && fresh(*integer)
+//@   ensures err != nil ==> integer == nil
+//@   modifies nothing
+
+//@ contract NewIntegerFromBytes(bytes []byte) (i Integer, err error)
+//@   ensures @C12 (err == nil) == (1 <= len(bytes) && len(bytes) <= 8)
+//@   ensures @C12 err == nil ==> seqeq(i, bytes) && fresh(i)
+//@   ensures err != nil ==> i == nil
+//@   modifies nothing
+
+//@ contract (i Integer) Int() (v int)
+//@   ensures @C12 len(i) == 0 ==> v == 0
+//@   ensures @C12 1 <= len(i) && len(i) <= 8 ==> v == int(val(i))
+//@   ensures len(i) > 8 ==> v == int(val(i[:8]))
+//@   modifies nothing
+
+//@ contract (i Integer) IntSafe() (v int, err error)
+//@   ensures @C12 (err == nil) == (1 <= len(i) && len(i) <= 8)
+//@   ensures @C12 err == nil ==> v == int(val(i))
+//@   modifies nothing
+
+//@ contract (i Integer) UintSafe() (v uint64, err error)
+//@   ensures @C12 (err == nil) == (1 <= len(i) && len(i) <= 8)
+//@   ensures @C12 err == nil ==> v == val(i)
+//@   modifies nothing
+
+//@ contract (i Integer) Bytes() (b []byte)
+//@   ensures same(b, i)
+//@   modifies nothing
+
+// ---------------------------------------------------------------- EncodeIntN / DecodeIntN
+
+//@ contract EncodeIntN(value int, size int) (b []byte, err error)
+//@   ensures @C12 (err == nil) == (value >= 0 && 1 <= size && size <= 8 && fitsIn(uint64(value), size))
+//@   ensures @C12 err == nil ==> len(b) == size && val(b) == uint64(value) && fresh(b)
+//@   ensures err != nil ==> b == nil
+//@   modifies nothing
+
+//@ contract DecodeIntN(data []byte) (v int, err error)
+//@   ensures @C12 (err == nil) == (1 <= len(data) && len(data) <= 8 && val(data) <= 9223372036854775807)
+//@   ensures @C12 err == nil ==> uint64(v) == val(data)
+//@   modifies nothing
+
+//@ lemma C12_EncodeDecodeIntN(value int, size int) {
+//@   b, err := EncodeIntN(value, size)
+//@   if err == nil {
+//@     v, err2 := DecodeIntN(b)
+//@     assert(err2 == nil && v == value && len(b) == size)
+//@   }
+//@ }
+
+//@ lemma C12_IntegerRoundTrip(value int, size int) {
+//@   i, err := NewIntegerFromInt(value, size)
+//@   if err == nil {
+//@     assert(i.Int() == value)
+//@     u, e := i.UintSafe()
+//@     assert(e == nil && u == uint64(value))
+//@   }
+//@ }
+
+//@ lemma T_mustfail1(value int, size int) {
+//@   i, err := NewIntegerFromInt(value, size)
+//@   if err == nil {
+//@     assert(i.Int() == value+1)
+//@   }
+//@ }
+//@ lemma T_mustfail2(value int, size int) {
+//@   b, err := EncodeIntN(value, size)
+//@   if err == nil {
+//@     assert(len(b) == 3)
+//@   }
+//@   assert(err != nil)
+//@ }
